@@ -83,17 +83,26 @@ Theorem C08_reencode_stable : forall S E, str_laws S -> wf_env E = true ->
 Proof. intros S E L W. apply reencode_stable; auto. apply wf_env_increasing; assumption. Qed.
 
 (* IDs are unchanged by store/load: DataAccess stores Encode v; a getter decodes the stored bytes (leniently for headers,
-   strictly for transactions) and the ID is the hash of the stored bytes / of the re-encoding of the loaded value.  The hash
+   strictly for transactions) and the ID is the hash of the re-encoding of the loaded value (the getter's hash of the stored
+   bytes is the same number by definition of [id_of], so it is not stated).  The hash
    is arbitrary (an argument).  Hypothesis [full]: no nil nested message (every producer of headers sets aggregateCommit). *)
 Theorem C08_id_stable_store_load : forall S E (hash : list N -> list N), str_laws S -> wf_env E = true ->
   forall fuel s vs, wt_struct S E fuel s vs -> full fuel vs -> increasing 0 s = true ->
   (Z.of_nat (List.length (encode_struct S E fuel s vs)) < 2^62)%Z ->
   let stored := encode_struct S E fuel s vs in
   exists v', Decode S E fuel s stored = Ok v' /\
-             hash stored = id_of S E hash fuel s vs /\
              id_of S E hash fuel s v' = id_of S E hash fuel s vs /\
              encode_struct S E fuel s v' = stored.
 Proof. intros S E hash L W. apply id_stable_store_load; auto. apply wf_env_increasing; assumption. Qed.
+
+(* encoding is deterministic: Encode is a Gallina function of the value (the generated Go Encode bodies are straight-line
+   writer calls, nil guards and range loops over []*T slices only — the translator rejects anything else, in particular a map
+   range or a call that is not a Writer method), and values equal up to the canonical form have the same bytes and the same ID *)
+Theorem C08_encode_deterministic : forall S E (hash : list N -> list N), str_laws S ->
+  forall fuel s v1 v2, wt_struct S E fuel s v1 -> wt_struct S E fuel s v2 -> full fuel v1 -> full fuel v2 ->
+  canon_struct S E fuel s v1 = canon_struct S E fuel s v2 ->
+  encode_struct S E fuel s v1 = encode_struct S E fuel s v2 /\ id_of S E hash fuel s v1 = id_of S E hash fuel s v2.
+Proof. intros S E hash L. apply encode_deterministic; assumption. Qed.
 
 Theorem C08_id_stable_store_load_strict : forall S E (hash : list N -> list N), str_laws S -> wf_env E = true ->
   forall fuel s vs, wt_struct S E (Datatypes.S fuel) s vs -> full (Datatypes.S fuel) vs -> Forall not_nil vs ->
